@@ -4,7 +4,7 @@ from __future__ import annotations
 import ast
 import re
 
-from ..core import INCONCLUSIVE, OK, VIOLATION, Ctx, canon, is_self_attr, local_defs
+from ..core import INCONCLUSIVE, OK, VIOLATION, Ctx, Ob, canon, is_self_attr, local_defs
 from ..model import AnalysisError, body_walk, norm
 
 CLAIM = """Decides the structural clauses of the clustering code: (R15.1) the identifier under which an individual is stored in the
@@ -121,6 +121,17 @@ def r15_1(ctx: Ctx):
     while isinstance(v, ast.Name) and v.id in defs and len(defs[v.id]) == 1:
         v = defs[v.id][0]
     k, why = _injective(v, p)
+    if k == "injective" and any(isinstance(x, ast.Attribute) and x.attr == "uuid" for x in ast.walk(v)):
+        # the uuid identifies an individual only if no copy keeps it: `clone()` built on copy(self) hands the parent's uuid to
+        # every offspring unless it draws a new one
+        ind = ctx.prog.cls("Individual")
+        for m in ind.methods.values():
+            sn = m.self_name()
+            for y in body_walk(m.node):
+                if isinstance(y, ast.Assign) and len(y.targets) == 1 and isinstance(y.targets[0], ast.Name) and isinstance(y.value, ast.Call) and norm(y.value.func).split(".")[-1] in ("copy", "deepcopy") and y.value.args and isinstance(y.value.args[0], ast.Name) and y.value.args[0].id == sn:
+                    fresh = any(isinstance(z, ast.Assign) and any(isinstance(t, ast.Attribute) and t.attr == "uuid" and isinstance(t.value, ast.Name) and t.value.id == y.targets[0].id for t in z.targets) for z in body_walk(m.node))
+                    if not fresh:
+                        k, why = "lossy", f"Individual.{m.name} copies the object with its uuid (`{norm(y)}`, no new uuid drawn): offspring cloned from one parent share the identifier, the duplicate node is swallowed and all but one of them drop out of the spanning tree"
     obs.append(ctx.ob("R15.1", f, rets[0], status=OK if k == "injective" else VIOLATION if k == "lossy" else INCONCLUSIVE, detail=f"identifier `{norm(v)}` is injective on genomes ({why})" if k == "injective" else f"identifier `{norm(v)}`: {why}", construct="id"))
     # sibling reference idiom
     nc = ctx.prog.cls_opt("NumpyCache")
@@ -507,7 +518,9 @@ def r15_4(ctx: Ctx):
 
 
 def r15_5(ctx: Ctx):
-    """R15.5 generators feed the deme's current population and export the same clustering's mean distance (R09.4)."""
+    """R15.5 (not registered: which population the generators hand to the clustering is C07 / C09 / C10's question - the
+    clustering itself answers correctly for whatever evaluated population it is given) generators feed the deme's current
+    population and export the same clustering's mean distance (R09.4)."""
     from . import c09
 
     out = []
@@ -584,4 +597,47 @@ def r15_8(ctx: Ctx):
     return obs
 
 
-RULES = [("R15.1", r15_1, 4), ("R15.2", r15_2, 1), ("R15.3", r15_3, 5), ("R15.4", r15_4, 4), ("R15.5", r15_5, 2), ("R15.7", r15_7, 5), ("R15.8", r15_8, 1)]
+def r15_9(ctx: Ctx):
+    """R15.9 what the clustering's order rests on: (a) NearestBetterClustering compares objective values only through
+    Individual's order - no raw `<` / `<=` / argmin on fitness values outside a maximize switch (R13.1 restricted to the
+    clustering module); (b) `Individual.__eq__` is exactly fitness equivalence: `self.individuals.index(ind)` is the length of
+    the strictly-better prefix and `ind == root` is "tied with the best" only under that definition - with a genome
+    conjunct index() returns the individual's own position and every earlier TIED individual counts as better."""
+    from . import c13
+
+    obs = []
+    raw = [o for o in c13.r13_1(ctx) if o.status == VIOLATION and o.subject.startswith("utils.clusterization.")]
+    for o in raw:
+        obs.append(Ob("R15.9", o.subject, o.loc, VIOLATION, detail=o.detail + " - the clustering's order then differs between (f, min) and (-f, max)", construct="raw-compare:" + o.subject))
+    if not raw:
+        f0 = ctx.prog.cls("NearestBetterClustering").methods["__init__"]
+        obs.append(ctx.ob("R15.9", f0, f0.node, detail="no raw comparison of objective values in pyhms.utils.clusterization (R13.1)", construct="raw-compare"))
+    ind = ctx.prog.cls("Individual")
+    eq = ind.methods.get("__eq__")
+    if eq is None:
+        obs.append(ctx.ob("R15.9", None, None, subject="core.individual.Individual", loc="-", status=VIOLATION, detail="Individual defines no __eq__: `index` / `==` fall back to identity, a tie with the best is never recognised", construct="eq"))
+        return obs
+    sn, other = eq.params()[0], eq.params()[1]
+    rets = [r.value for r in body_walk(eq.node) if isinstance(r, ast.Return) and r.value is not None and not (isinstance(r.value, ast.Constant) and r.value.value in (False, NotImplemented))]
+    rets = [r for r in rets if norm(r) != "NotImplemented"]
+    def is_equiv(e):
+        return isinstance(e, ast.Call) and isinstance(e.func, ast.Attribute) and e.func.attr == "equivalent" and len(e.args) == 2 and {norm(a) for a in e.args} == {f"{sn}.fitness", f"{other}.fitness"}
+    st, why = INCONCLUSIVE, f"Individual.__eq__ returns `{'; '.join(norm(r)[:60] for r in rets)}`: not recognisably fitness equivalence"
+    if len(rets) == 1 and is_equiv(rets[0]):
+        st, why = OK, "Individual.__eq__ is fitness equivalence (problem.equivalent of the two fitness values)"
+    elif len(rets) == 1 and isinstance(rets[0], ast.BoolOp) and isinstance(rets[0].op, ast.And) and any(is_equiv(v) for v in rets[0].values):
+        extra = [v for v in rets[0].values if not is_equiv(v)]
+        if any(isinstance(x, ast.Attribute) and x.attr in ("genome", "uuid") for v in extra for x in ast.walk(v)) or any(isinstance(v, ast.Compare) and isinstance(v.ops[0], ast.Is) for v in extra):
+            st, why = VIOLATION, f"Individual.__eq__ also requires `{norm(extra[0])[:60]}`: `self.individuals.index(ind)` now stops at the individual itself, so every EARLIER individual with the same fitness counts as strictly better, and `ind == root` no longer recognises a tie with the best - tied individuals attach to each other instead of to the best"
+    elif len(rets) == 1 and isinstance(rets[0], ast.Compare) and isinstance(rets[0].ops[0], (ast.Is, ast.Eq)) and not any(isinstance(x, ast.Attribute) and x.attr == "fitness" for x in ast.walk(rets[0])):
+        st, why = VIOLATION, f"Individual.__eq__ is `{norm(rets[0])[:60]}`, not fitness equivalence: the strictly-better prefix and the tie with the best are computed through it"
+    if st == VIOLATION:
+        nbc = ctx.prog.cls("NearestBetterClustering")
+        relies = [x for m in nbc.methods.values() for x in body_walk(m.node) if (isinstance(x, ast.Call) and isinstance(x.func, ast.Attribute) and x.func.attr == "index" and "individuals" in norm(x.func.value)) or (isinstance(x, ast.Compare) and len(x.ops) == 1 and isinstance(x.ops[0], (ast.Eq, ast.NotEq)) and all(isinstance(y, ast.Name) for y in [x.left] + x.comparators))]
+        if not relies:
+            st, why = INCONCLUSIVE, why.split(":")[0] + ": the clustering no longer uses `index` / `==` on individuals; cannot tell what it relies on"
+    obs.append(ctx.ob("R15.9", eq, eq.node, status=st, detail=why, construct="eq"))
+    return obs
+
+
+RULES = [("R15.9", r15_9, 2), ("R15.1", r15_1, 4), ("R15.2", r15_2, 1), ("R15.3", r15_3, 5), ("R15.4", r15_4, 4), ("R15.7", r15_7, 5), ("R15.8", r15_8, 1)]
